@@ -30,6 +30,11 @@ def gather_names_labels(x):
     return "G " + " ".join(out)
 
 
+def only_prefix(prefix):
+    """compare only the output lines that start with `prefix` (the observable of this property in a shared area)"""
+    return lambda x: x if x.startswith(prefix) else "-"
+
+
 def gather_types(x):
     """family name, type and the value read through that type (C14)"""
     f = _fams(x)
@@ -96,9 +101,11 @@ PROPS = {
     "C01": dict(
         module="Prom.Props.C01",
         areas=[dict(area="catomc", quick=1500, thorough=80000, classes=["not-linearizable", "stuck", "harness-panic"]),
-               dict(area="cvec", quick=800, thorough=40000, classes=["update-lost", "not-linearizable", "stuck", "harness-panic"])],
+               dict(area="cvec", quick=800, thorough=40000, classes=["update-lost", "not-linearizable", "stuck", "harness-panic"]),
+               dict(area="local", quick=600, thorough=20000, classes=["counter-handover", "counter-pending", "harness-panic"], mask=[(only_prefix("shared="), None)])],
         rule="case = 2-3 real threads x 1-3 calls (inc, inc_by, get, reset, local flush) on one shared Counter / IntCounter, or get-or-create + inc on IntCounterVec children, run under the deterministic scheduler "
              "(random schedules with stickiness 0/50/85 %, up to 12 spurious compare-exchange failures); the observed trace of atomic operations is replayed by the Lean machine; "
+             "plus sequential histories of local counters (inc, flush, reset, clone, shared reset) from the `local` area: the shared counter must equal its direct updates plus the flushed amounts, each exactly once; "
              "non-trivial = two calls of different threads overlap in real time; distinct by (program, schedule seed)",
         trusted=CONC_TB + ["float amounts are small integers (exact sums)"],
     ),
@@ -191,10 +198,12 @@ PROPS = {
         module="Prom.Props.C05",
         areas=[dict(area="vec", quick=1500, thorough=60000,
                     classes=["child-identity", "key-encoding", "error-kind", "wrong-shape-accepted", "wellformed-request-refused",
-                             "remove-result", "collect-mismatch", "fnv-collision", "harness-panic"])],
+                             "remove-result", "collect-mismatch", "fnv-collision", "harness-panic"]),
+               dict(area="local", quick=600, thorough=20000, classes=["vector-handover", "harness-panic"], mask=[(only_prefix("n="), None)])],
         rule="case = one vector (counter/int counter/gauge/int gauge/histogram; 0-3 declared names, 0-2 const labels) + 3-12 operations "
              "(with_label_values, map form in shuffled key order, remove, reset, update through old handles, collect); tuples are built from one string cut at "
              "different places, empty values, multi-byte/0x7f/NUL neighbours, the FNV collision pair, wrong cardinality, wrong names; "
+             "plus local-vector histories of the `local` area (a local vector must address the same child as the shared vector for equal label values, also after removals); "
              "non-trivial = the case requests two tuples with equal concatenation (split shifted) or creates >= 2 children; distinct by request text",
         trusted=["the child key is FNV-1a 64 (modelled exactly, compared with the real key through the cfg(prometheus_verif) accessor verif_key)",
                  "a child's value is abstracted to the number of updates made through any handle to it"],
